@@ -166,7 +166,7 @@ impl LocalStats {
 }
 
 pub fn cfg_json(c: &Cfg) -> Value {
-    json!({"flavour": c.flavour, "mode": c.mode, "x": c.x, "y": c.y, "k": c.k})
+    json!({"flavour": c.flavour, "mode": c.mode, "x": c.x, "y": c.y, "k": c.k, "sw": c.sw})
 }
 
 pub fn cfg_from_json(v: &Value) -> Option<Cfg> {
@@ -176,6 +176,7 @@ pub fn cfg_from_json(v: &Value) -> Option<Cfg> {
         x: v.get("x")?.as_u64()? as u8,
         y: v.get("y")?.as_u64()? as u8,
         k: v.get("k")?.as_u64()? as u8,
+        sw: v.get("sw").and_then(|s| s.as_u64()).unwrap_or(0) as u8,
     })
 }
 
@@ -201,7 +202,7 @@ pub fn history_json(prop: &str, world: &dyn World, cfg: &Cfg, ops: &[Op], violat
         "property": prop,
         "world": world.name(),
         "config": cfg_json(cfg),
-        "config_desc": world.cfg_desc(cfg),
+        "config_desc": world.describe(cfg),
         "ops": ops_json(&specs, ops),
     });
     if let Some(vi) = violation {
@@ -219,7 +220,7 @@ pub fn sample_json(world: &dyn World, cfg: &Cfg, ops: &[Op]) -> Value {
     let specs = world.specs(cfg);
     json!({
         "world": world.name(),
-        "config": world.cfg_desc(cfg),
+        "config": world.describe(cfg),
         "ops": ops.iter().map(|o| op_to_string(&specs, o)).collect::<Vec<_>>().join(" "),
         "observed": run.trace,
         "classes": class_list(world, run.classes),
